@@ -1,0 +1,45 @@
+//go:build verif
+
+// Contracts for deductive verification (comment-only; read by /verif/govc, never compiled into the product).
+
+package componentcfg
+
+// C20: configuration lookups return the most specific existing entry
+
+//@ ghost pure func rtName(rt apricotpb.RunType) string = apricotpb.RunType_name[rt]
+
+//@ ghost pure func rawOf(c string, rt apricotpb.RunType, role string, key string) string =
+//@     c + SEPARATOR + rtName(rt) + SEPARATOR + role + SEPARATOR + key
+
+//@ ghost pure func absOf(c string, rt apricotpb.RunType, role string, key string) string =
+//@     ConfigComponentsPath + rawOf(c, rt, role, key)
+
+//@ func (p *Query) Raw() (s string)
+//@   property C20
+//@   opt strings=uf
+//@   pure
+//@   requires p != nil
+//@   ensures s == rawOf(p.Component, p.RunType, p.RoleName, p.EntryKey)
+
+//@ func (p *Query) AbsoluteRaw() (s string)
+//@   property C20
+//@   opt strings=uf
+//@   pure
+//@   requires p != nil
+//@   ensures s == absOf(p.Component, p.RunType, p.RoleName, p.EntryKey)
+
+//@ func (p *Query) WithFallbackRunType() (q *Query)
+//@   property C20
+//@   opt strings=uf
+//@   modifies nothing
+//@   requires p != nil
+//@   ensures fresh(q)
+//@   ensures q.Component == old(p.Component) && q.RunType == FALLBACK_RUNTYPE && q.RoleName == old(p.RoleName) && q.EntryKey == old(p.EntryKey)
+
+//@ func (p *Query) WithFallbackRoleName() (q *Query)
+//@   property C20
+//@   opt strings=uf
+//@   modifies nothing
+//@   requires p != nil
+//@   ensures fresh(q)
+//@   ensures q.Component == old(p.Component) && q.RunType == old(p.RunType) && q.RoleName == FALLBACK_ROLENAME && q.EntryKey == old(p.EntryKey)
